@@ -70,6 +70,13 @@ class Problem:
     self.type = np.array(d.efc_type, dtype=np.int64)[:nefc]
     self.id = np.array(d.efc_id, dtype=np.int64)[:nefc]
     self.ne, self.nf, self.nl = int(d.ne), int(d.nf), int(d.nl)
+    # magnitude of the terms that are added to form aref = -b (J v) - k r (+ Jdot v for connect / weld): only used as a
+    # rounding scale when two computations of aref are compared
+    qv = np.abs(np.array(d.qvel, dtype=np.float64))
+    kbip = np.array(d.efc_KBIP, dtype=np.float64).reshape(-1, 4)[:nefc]
+    pm = np.abs(np.array(d.efc_pos, dtype=np.float64)[:nefc]) + np.abs(np.array(d.efc_margin, dtype=np.float64)[:nefc])
+    self.aref_scale = np.abs(self.aref) + kbip[:, 1] * (np.abs(self.J) @ qv) + kbip[:, 0] * pm + \
+        (self.type == EQUALITY) * float(qv @ qv)
     t = self.type
     self.is_eq = t == EQUALITY
     self.is_fl = (t == FRICTION_DOF) | (t == FRICTION_TENDON)
@@ -132,9 +139,17 @@ class Problem:
 
   def noise(self, a, f):
     """Elementwise magnitude of the terms that are added to form the gradient (for eps-scaled tolerances):
-    |M|(|a|+|a0|) + |J|'(|f| + D (|J||a| + |aref|)) ."""
+    |M|(|a|+|a0|) + |J|'(|f| + D (|J|(|a|+|a0|) + |aref|)) .
+    (a is reached from a0 by additive updates, so its components carry rounding errors of size eps*(|a|+|a0|).)"""
     aJ = np.abs(self.J)
-    return np.abs(self.M) @ (np.abs(a) + np.abs(self.a0)) + aJ.T @ (np.abs(f) + self.D * (aJ @ np.abs(a) + np.abs(self.aref)))
+    b = np.abs(a) + np.abs(self.a0)
+    return np.abs(self.M) @ b + aJ.T @ (np.abs(f) + self.D * (aJ @ b + np.abs(self.aref)))
+
+  def cost_scale(self, a):
+    """Sum of the magnitudes of the terms of the cost (rounding scale of a cost value):
+    1/2 (|a|+|a0|)'|M|(|a|+|a0|) + sum D (|J|(|a|+|a0|) + |aref|)^2 ."""
+    b = np.abs(a) + np.abs(self.a0)
+    return float(0.5 * b @ (np.abs(self.M) @ b) + np.sum(self.D * (np.abs(self.J) @ b + np.abs(self.aref)) ** 2))
 
   def delta(self, g):
     """Certified M-norm distance to the optimum from a gradient: sqrt(g' M^-1 g)."""
